@@ -183,6 +183,59 @@ func raceC15(seed uint64, rounds int) string {
 			}
 		}
 	}
+	// evaluator-heavy templates with DIFFERENT literals per template: every path of the expression evaluator that could
+	// keep process-wide scratch state (literal rewriting in all three quoting styles with escapes, concatenation,
+	// number formatting, conversions, method calls, slicing, comparisons) runs in many goroutines at once
+	{
+		const K, G, N = 8, 16, 150
+		var files [][2]string
+		for k := 0; k < K; k++ {
+			body := fmt.Sprintf(`<p :text="${'T%[1]d it\'s q%[1]d \\ ' + s1}" :title='${"dq%[1]d\t\"x\" " + name}' :data-r="${`+"`raw%[1]d\\n`"+` + string(num + %[1]d)}">x</p>`+
+				`<i :text="${p4.Next() + %[1]d}" :class="c%[1]d ${st.Name} ${st.Tags[%[2]d]}"></i>`+
+				`<b :if="${num + %[1]d > 3 && 'k%[1]d\'' != name}" :text="${1.5 * %[1]d + 0.25}">y</b><b :else :text="${'else%[1]d\\'}"></b>`+
+				`<u :range="i, x : xs" :text="${string(i) + '\'%[1]d\'' + string(x)}"></u>`, k, k%2)
+			files = append(files, [2]string{fmt.Sprintf("e%d.html", k), body})
+		}
+		cfg := tmplCfg{ap: ":", tp: "t:", global: map[string]any{}}
+		m, le := newManager(cfg, files)
+		if le != "" {
+			return "FAIL C15 evaluator scenario does not load: " + le
+		}
+		r := NewRng(seed, 7777)
+		datas := make([]map[string]any, G)
+		for g := range datas {
+			datas[g] = genData(r)
+		}
+		res := make([][]runResult, G)
+		var wg sync.WaitGroup
+		start := make(chan struct{})
+		for g := 0; g < G; g++ {
+			wg.Add(1)
+			go func(g int) {
+				defer wg.Done()
+				<-start
+				for j := 0; j < N; j++ {
+					t, _ := m.GetTemplate(fmt.Sprintf("e%d.html", (g+j)%K))
+					res[g] = append(res[g], execOne(t, tmplRun{data: datas[g], budget: -1}))
+				}
+			}(g)
+		}
+		close(start)
+		wg.Wait()
+		for g := 0; g < G; g++ {
+			for j := 0; j < N; j++ {
+				t, _ := m.GetTemplate(fmt.Sprintf("e%d.html", (g+j)%K))
+				want := execOne(t, tmplRun{data: datas[g], budget: -1})
+				execs++
+				if want.line() != res[g][j].line() {
+					fails++
+					if fails <= 3 {
+						fmt.Printf("FAIL C15 evaluator scenario goroutine %d execution %d template e%d.html: concurrent %.300s, alone %.300s\n", g, j, (g+j)%K, res[g][j].line(), want.line())
+					}
+				}
+			}
+		}
+	}
 	if fails > 0 {
 		return fmt.Sprintf("FAIL C15 %d of %d concurrent executions differ from the serial result", fails, execs)
 	}
